@@ -131,12 +131,6 @@ def sweepChar (h : VersionHistory) (m : Nat) : Char :=
     | some k => Char.ofNat (97 + k)
     | none => '?'
 
-def refPath (h : VersionHistory) : Str :=
-  match h.unstable.head?, h.stable.head? with
-  | some p, _ => p
-  | none, some e => e.2
-  | none, none => []
-
 /-- `ok s<url> <routed args|noroute>` -/
 def urlAnswer (h : VersionHistory) (vs : List Nat) (base query : Str) (args : List Str) : String :=
   match makeEndpointUrl h vs base args query, selectPath h vs with
@@ -294,7 +288,7 @@ def handle (toks : List String) : String :=
     | some (scheme, h), some (vs, k :: tok :: r) =>
       match parseStrTok tok, parseOne r with
       | some t, some (.obj o) =>
-        let names := (pathArgNames (refPath h))
+        let names := (pathArgNames ((refPath h).getD []))
         match k.toNat?.bind (satOf · t), names.mapM (fun n => (Obj.get o n).bind fieldStr) with
         | some sat, some args => rtAnswer h scheme vs sat args
         | _, _ => "bad-op"
